@@ -263,7 +263,7 @@ pub fn check_vm(code: &[u8], lim: &Limits3) -> Result<Option<Fired>, Verdict> {
 
 /// Oracle item (6): the whole pipeline finishes under a step budget, for one plan.
 pub fn check_halts(code: &[u8], cfg: &sle::vm::Config, plan: &Plan, budget: u64) -> Result<crate::obs::Obs, Verdict> {
-    let w = CountingWatchdog::new(1, Some(budget));
+    let w = CountingWatchdog::with_deadline(1, Some(budget), 60);
     let o = analyze(code, cfg.clone(), plan, w.clone());
     if o.class == Class::ErrStopped {
         // which stage was still running?
